@@ -75,9 +75,10 @@ def run(tier):
     by_res = {}
     for e in lines2:
         if e["e"] == "Size": by_res[e["res"]] = by_res.get(e["res"], 0) + 1
-    if nsz < 300 or any(by_res.get(r, 0) < 20 for r in ("ok", "badalloc", "overflow")):
+    bad2 = printed_json(res2, "BAD")
+    if not bad2 and not v.viol and (nsz < 300 or any(by_res.get(r, 0) < 20 for r in ("ok", "badalloc", "overflow"))):
         raise Broken("h_sizes: too few calls / outcomes not all exercised: %s" % by_res)
-    for b in printed_json(res2, "BAD"):
+    for b in bad2:
         if b["kind"] == "crash":
             v.violation("size-crash", "h_sizes crashed: " + json.dumps(lines2[b["line"] - 1])[:800], lines2[b["line"] - 1])
         else:
